@@ -1,7 +1,7 @@
 from props_common import BASE_TB
 
 PROP = {
-    "modules": ["YorkieModel.Props.C06"],
+    "modules": ["YorkieModel.Props.C06", "YorkieModel.Props.C06Srv"],
     "engines": [
         # integrated engine: real client SDK + real in-process server (memory DB), traffic captured at the HTTP transport
         {"name": "srv", "args": ["orc=c06"], "quick": {"n": 640, "workers": 8}, "thorough": {"n": 16000, "workers": 14}},
